@@ -43,6 +43,7 @@ type ScenarioStats struct {
 	Violations  []FoundViolation `json:"violations,omitempty"`
 	Sample      []string         `json:"sample,omitempty"`
 	WallMs      int64            `json:"wall_ms"`
+	RssMB       int64            `json:"rss_mb"` // resident set size of the worker when the scenario was done
 }
 
 type Explorer struct {
@@ -214,8 +215,48 @@ func genericCheck(w *World) []Violation {
 	return vs
 }
 
+// rssBytes is the resident set size of this worker (0 if /proc is not readable).
+func rssBytes() int64 {
+	b, err := os.ReadFile("/proc/self/statm")
+	if err != nil {
+		return 0
+	}
+	f := strings.Fields(string(b))
+	if len(f) < 2 {
+		return 0
+	}
+	var pages int64
+	fmt.Sscan(f[1], &pages)
+	return pages * int64(os.Getpagesize())
+}
+
+// memLimit: goroutines of executions whose bubble ended while they were still blocked can never be collected,
+// so a worker grows with the number of executions. Above the hard limit the exploration of the current scenario
+// stops like at its deadline (reported as not exhaustive); above the soft limit the worker asks to be restarted
+// between two scenarios.
+func memLimit(env string, def int64) int64 {
+	if v := os.Getenv(env); v != "" {
+		var n int64
+		if _, err := fmt.Sscan(v, &n); err == nil && n > 0 {
+			return n << 20
+		}
+	}
+	return def
+}
+
+var (
+	memHard     = memLimit("VH_MEM_HARD_MB", 6<<30)
+	memSoft     = memLimit("VH_MEM_SOFT_MB", 2<<30)
+	memChecks   int
+	memExceeded bool
+)
+
 func (e *Explorer) explore(prefix []int, spent int, k int) bool {
-	if time.Now().After(e.deadline) {
+	if time.Now().After(e.deadline) || memExceeded {
+		return false
+	}
+	if memChecks++; memChecks%128 == 0 && rssBytes() > memHard {
+		memExceeded = true
 		return false
 	}
 	w := e.runOne(prefix)
@@ -231,7 +272,9 @@ func (e *Explorer) explore(prefix []int, spent int, k int) bool {
 	if e.replayN%64 == 0 {
 		w2 := RunExecution(e.t, e.sc, prefix)
 		e.stats.Replayed++
-		if f1, f2 := fingerprint(w), fingerprint(w2); f1 != f2 {
+		f1, f2 := fingerprint(w), fingerprint(w2)
+		w2.release()
+		if f1 != f2 {
 			e.stats.Divergences++
 			if e.stats.DivSample == "" {
 				a, b := strings.Split(f1, ";"), strings.Split(f2, ";")
@@ -252,6 +295,7 @@ func (e *Explorer) explore(prefix []int, spent int, k int) bool {
 		e.stats.Sample = chosenLabels(w)
 	}
 	points := w.Points
+	w.release()
 	w = nil
 	complete := true
 	for i := len(prefix); i < len(points); i++ {
@@ -311,6 +355,7 @@ func ExploreScenario(t *testing.T, sc *Scenario, deadline time.Time) ScenarioSta
 	last.Replayed, last.Divergences, last.Leaked = replayed, diverged, leaked
 	last.Violations = viols
 	last.WallMs = time.Since(start).Milliseconds()
+	last.RssMB = rssBytes() >> 20
 	last.NOutcomes = len(last.Outcomes)
 	last.Outcomes = nil
 	return last
